@@ -50,6 +50,12 @@ pub enum CovSpec {
     Stores(u16),
     /// approves iff heap slot `slot` holds a true value - on the fresh heap every input's covenant starts with it fails
     NeedsSlot(u16),
+    /// approves iff the spending transaction has inputs - read from heap slot 0 through the stack-addressed `Load`
+    /// (address computed at run time), not `LoadImm`
+    DynLoadTx,
+    /// bytes that are NOT a program: a compact integer with a leading zero byte (`f2 02 00 01`); the canonical spelling
+    /// `f2 01 01` is a different address.  Never spendable, on any network at any height.
+    NonCanonicalInt,
 }
 
 impl CovSpec {
@@ -93,6 +99,8 @@ impl CovSpec {
             CovSpec::CreatedAt(h) => Covenant::from_ops(&[LoadImm(8), PushI(U256::from(*h)), Eql]).to_bytes(),
             CovSpec::Stores(slot) => Covenant::from_ops(&[PushI(1u8.into()), StoreImm(*slot), PushI(1u8.into())]).to_bytes(),
             CovSpec::NeedsSlot(slot) => Covenant::from_ops(&[LoadImm(*slot)]).to_bytes(),
+            CovSpec::DynLoadTx => Covenant::from_ops(&[PushI(1u8.into()), PushI(0u8.into()), Load, VRef, VLength]).to_bytes(),
+            CovSpec::NonCanonicalInt => Bytes::from_static(&[0xf2, 0x02, 0x00, 0x01]),
             CovSpec::HeaderField(i, want_zero) => {
                 let mut ops = vec![PushI(U256::from(*i)), LoadImm(10), VRef];
                 if matches!(i, 1 | 3 | 4 | 5 | 9 | 10) {
@@ -138,13 +146,12 @@ impl Wallet {
         // the covenant-centred stream: unusual covenants much more often
         if twins() >= 6 && r.chance(1, 3) {
             return match r.below(7) {
-                6 => {
-                    if r.chance(2, 3) {
-                        CovSpec::Stores(*r.pick(&[100u16, 100, 1, 0, 5, 9, 3, 65535]))
-                    } else {
-                        CovSpec::NeedsSlot(*r.pick(&[100u16, 100, 65535, 11]))
-                    }
-                }
+                6 => match r.below(6) {
+                    0 | 1 | 2 => CovSpec::Stores(*r.pick(&[100u16, 100, 1, 0, 5, 9, 3, 65535])),
+                    3 => CovSpec::NeedsSlot(*r.pick(&[100u16, 100, 65535, 11])),
+                    4 => CovSpec::DynLoadTx,
+                    _ => CovSpec::NonCanonicalInt,
+                },
                 0 | 1 => CovSpec::Truncated(r.below(nk) as usize, 1 + r.below(60) as usize),
                 2 => CovSpec::Undecodable,
                 3 => CovSpec::IndexIs(r.below(3) as u8),
@@ -180,13 +187,12 @@ impl Wallet {
                 }
             }
             _ => match r.below(5) {
-                4 => {
-                    if r.chance(2, 3) {
-                        CovSpec::Stores(*r.pick(&[100u16, 1, 0, 5, 9]))
-                    } else {
-                        CovSpec::NeedsSlot(100)
-                    }
-                }
+                4 => match r.below(5) {
+                    0 | 1 => CovSpec::Stores(*r.pick(&[100u16, 1, 0, 5, 9])),
+                    2 => CovSpec::NeedsSlot(100),
+                    3 => CovSpec::DynLoadTx,
+                    _ => CovSpec::NonCanonicalInt,
+                },
                 0 => CovSpec::Never,
                 1 => CovSpec::Undecodable,
                 _ => CovSpec::Truncated(r.below(nk) as usize, 1 + r.below(60) as usize),
